@@ -476,7 +476,8 @@ class Gen:
             if a["alg"] == "Auto":
                 kw = {k: v for k, v in kw.items() if k in ("tol", "max_iters")}
             a["alg"] = self.algobj(a["alg"], kw)
-        self.maybe_alloc_fault(st, probe=fl["probe"], pbar=bool(a.get("pbar") or (a.get("akw") or {}).get("pbar")))
+        seam = fl["probe"] or fl["kind"] == "kernel" or str(a.get("f", "")).startswith("ap:")
+        self.maybe_alloc_fault(st, probe=seam, pbar=bool(a.get("pbar") or (a.get("akw") or {}).get("pbar")))
         if fl["probe"] and cfg["rates"].get("reenter", 0) > 0:
             # re-enter cola on the SAME operands as the outer call, or on another pool operator
             menu = [{"fn": st["fn"], "args": a}]
@@ -500,7 +501,9 @@ OPTIONAL_MODULES = ["cola.linalg.preconditioning.preconditioners", "cola.linalg.
 
 def gen_c18(g, run_seed, tier, opts):
     cfg = swarm(g, opts)
-    cfg["n"] = g.choice([1, 2, 2, 3, 3, 3, 4, 4, 5, 6]) if cfg["n"] < 50 or g.random() < 0.8 else cfg["n"]
+    cfg["n"] = g.choice([1, 2, 2, 3, 3, 3, 4, 4, 5, 6]) if cfg["n"] < 50 or g.random() < 0.7 else g.choice([33, 101])
+    if cfg["n"] > 12:
+        cfg["nsteps"] = min(cfg["nsteps"], 6)
     cfg["p_less"] = g.choice([0.1, 0.3, 0.5, 0.8])
     cfg["first_bias"] = g.choice([None, True, False])
     cfg["import_at"] = g.choice(["never", "start", "mid"])
@@ -722,7 +725,7 @@ def phase_sweep(run, pool, maxlen):
                 conflicts.append((key, prev, (dig, job["letters"])))
 
     jobs = ({"id": i, "kind": "program", "program": history(L), "letters": list(L), "want_program": False,
-             "want_results": True, "deadline": 120, "run_seed": "sweep:" + "+".join(L)}
+             "want_results": True, "deadline": 240, "run_seed": "sweep:" + "+".join(L)}
             for i, L in enumerate(sweep_histories(maxlen)))
     pool.run(jobs, on, stop_flag=lambda: len(run.violations) >= 5 or len(run.harness) >= 5 or len(conflicts) >= 3)
     for key, a, b in conflicts[:2]:
